@@ -24,7 +24,15 @@ try:
         if meta['property'] not in checks:
             checks.insert(0, meta['property'])
         sh(f'git -C {REPO} checkout -q -- . && git -C {REPO} clean -qfd')
-        assert sh(f'git -C {REPO} apply {d}/patch.diff').returncode == 0, sid
+        if sh(f'git -C {REPO} apply {d}/patch.diff', capture_output=True).returncode != 0 and \
+                sh(f'git -C {REPO} apply -3 {d}/patch.diff', capture_output=True).returncode != 0:
+            # written against an earlier HEAD; a later fix: commit rewrote the same lines.  The recorded detection stays.
+            sh(f'git -C {REPO} checkout -q -- . && git -C {REPO} reset -q --hard')
+            meta['patch_applies_to_current_head'] = False
+            json.dump(meta, open(os.path.join(d, 'meta.json'), 'w'), indent=1)
+            print(sid, 'patch no longer applies to HEAD (kept as recorded)', flush=True)
+            continue
+        meta['patch_applies_to_current_head'] = True
         res = {}
         for c in checks:
             t0 = time.time()
